@@ -5,8 +5,8 @@
    half-windows.  Every theorem holds for EVERY oracle meeting the stated contract (most need none). *)
 From CNV Require Import Base.Prelude Base.Str Base.QNum Model.Chromsort Model.Smoothing Model.Fix
   Spec.Fix Proofs.ChromsortLemmas Proofs.FixLib Proofs.FixBins Proofs.FixShift Proofs.FixDepth
-  Proofs.FixWeights Proofs.FixWindow Proofs.FixPerm Proofs.FixFn
-  Gen.Params Gen.FixDefaults Gen.FnFix.
+  Proofs.FixWeights Proofs.FixWindow Proofs.FixPerm Proofs.FixFn Proofs.FnFix2 Proofs.FixCentre
+  Gen.Params Gen.FixDefaults Gen.FnFix Gen.FnFixMask Gen.FnFixWeights Gen.FnCnaryLow.
 Local Open Scope Q_scope.
 
 (* The output bins are exactly the sample bins (target and antitarget) whose reference bin --
@@ -75,6 +75,33 @@ Theorem C04_centred : forall bmv2 c o sq target anti ref out,
      centred (map cl2 (filter (fun b => negb (null_cov_b c (fst b))) (map fst out)))).
 Proof. exact centred_thm. Qed.
 
+(* The same without any hypothesis on the shift: the bins that HAD coverage when the centre was estimated are centred
+   in the output -- always.  (map fst out is pre or pre moved by s; the second conjunct speaks of the covered bins of
+   pre, moved by s.) *)
+Theorem C04_centred_selected : forall bmv2 c o sq target anti ref out,
+  do_fix_gen bmv2 c o sq target anti ref = inr out ->
+  exists pre s,
+    (map fst out = pre \/ map fst out = map (badd_log2 s) pre) /\
+    centred (map cl2 (map (badd_log2 s) (filter (fun b => negb (null_cov_b c (fst b))) pre))).
+Proof. exact centred_selected_thm. Qed.
+
+(* What the hypothesis of C04_centred excludes, exactly: a bin changes its coverage status under the final shift iff
+   it has a depth and its log2 is on one side of -15 before the shift and on the other side after it. *)
+Theorem C04_centred_crossing : forall c s b,
+  null_cov_b c (fst (badd_log2 s b)) <> null_cov_b c (fst b) <-> crosses c s (fst b).
+Proof. exact null_cov_badd_iff. Qed.
+
+(* Sharp: with a crossing bin the covered output bins need not be centred.  Three on-target bins on chr1 with sample
+   log2 -15.5 / -1 / 1 against reference log2 0 / 1 / 5, corrections off, no antitargets: the first bin is
+   null-coverage when the centre is estimated (median of -2, -4: shift +3) and covered afterwards, the output is
+   -12.5 / 1 / -1 with median -1.  Replayed on the code by the C04 corpus (finding c04-centred-null-crossing). *)
+Theorem C04_centred_crossing_refuted :
+  exists out,
+    do_fix_gen (fun _ => 0) cross_cfg cross_or (fun z => inject_Z z) cross_target [] cross_ref = inr out /\
+    map (fun p => Qred (blog2 (fst p))) out = [-25 # 2; 1; -1] /\
+    ~ centred (map cl2 (filter (fun b => negb (null_cov_b cross_cfg (fst b))) (map fst out))).
+Proof. exact centred_crossing_refuted. Qed.
+
 (* Weights lie in [0.0001, 1].  (Stated for inputs with a usable -- reference-filter passing, not
    null-coverage -- bin in the target table and, if any antitarget bin survives, in the antitarget
    table: without one the CODE yields NaN, open finding c04-weight-nan-no-usable-target; the model
@@ -85,6 +112,36 @@ Theorem C04_weight_range_usable : forall bmv2 c o sq target anti ref out,
   do_fix_gen bmv2 c o sq target anti ref = inr out ->
   forall p, In p out -> 1 # 10000 <= snd p <= 1.
 Proof. exact weight_range_usable_thm. Qed.
+
+(* The boundary of C04_weight_range on the CODE's side (open finding c04-weight-nan-no-usable-target): the variance of a
+   class -- bins named as off-target, or the others -- is biweight_midvariance of the class's residual vector, NaN
+   when that vector is empty; [l] is the table after the reference was subtracted (fix_pre).  The vector is empty
+   exactly when every bin of the class is null-coverage there (log2 below -15, or depth 0) ... *)
+Theorem C04_weight_nan_iff : forall c k l,
+  class_residuals c k l = [] <-> class_all_null c k l.
+Proof. exact class_nan_iff. Qed.
+
+(* ... and, on the inputs: every bin of [l] carries the coordinates, gene and depth of a sample row, so a depth
+   column that is 0 on every sample bin of the class empties its residual vector whatever the log2 values are
+   (the canonical case of the finding: three on-target bins with depth 0 against a flat reference). *)
+Theorem C04_weight_nan_depth : forall c o target anti ref l k,
+  has_sdepth c = true ->
+  (forall s, In s (target ++ anti) -> mem_string (s_gene s) ANTITARGET_ALIASES = k -> s_depth s == 0) ->
+  fix_pre c o target anti ref = inr l -> class_all_null c k l.
+Proof. exact class_nan_depth. Qed.
+
+Theorem C04_bins_origin : forall c o target anti ref l,
+  fix_pre c o target anti ref = inr l ->
+  Forall (fun b => exists s, In s (target ++ anti) /\ skey s = bkey b /\ s_gene s = s_gene (fst b) /\
+                             s_depth s = s_depth (fst b)) l.
+Proof. exact fix_pre_origin. Qed.
+
+(* Scope: the model is do_fix with do_cluster=False (the default), where the columns subtracted and weighted are the
+   reference's plain log2 / spread; the clustered-reference path (correlation-chosen log2_<k> / spread_<k> columns)
+   is outside the model and outside these theorems. *)
+Theorem C04_scope_no_cluster :
+  fix_do_cluster_default = false /\ fix_log2_key = "log2"%string /\ fix_spread_key = "spread"%string.
+Proof. exact fix_scope_literals. Qed.
 
 (* Within one class of bins: a larger bin never gets a smaller weight (equal reference spread), a
    larger reference spread never a larger weight (equal size).  Needs of np.sqrt only that it is
@@ -128,6 +185,34 @@ Proof. exact fn_edge_losses_eq. Qed.
 
 Theorem C04_source_edge_gains : forall t g : Z, edge_gain t g == fn_edge_gains t g INSERT_SIZE.
 Proof. exact fn_edge_gains_eq. Qed.
+
+(* The reference filter of one matched row is the body of cnvlib/fix.py mask_bad_bins as translated from the source on
+   every run (Gen/FnFixMask.v): the three comparisons against params.MIN_REF_COVERAGE / MAX_REF_SPREAD, then the
+   `if "depth" in cnarr` statement, then -- when the reference has a gc column -- the min/max bounds and the gc
+   comparison (Proofs.FnFix2.fn_mask_bad_bins composes the three translated fragments in that order). *)
+Theorem C04_source_mask_bad_bins : forall c r,
+  bad_bin c r = fn_mask_bad_bins (has_rdepth c) (has_gc c) (r_log2 r) (r_spread r) (r_depth r) (r_gc r).
+Proof. exact fn_mask_bad_bins_eq. Qed.
+
+(* The null-coverage test used by both centring steps and by the weights' residuals is the body of
+   cnvlib/cnary.py drop_low_coverage (Gen/FnCnaryLow.v). *)
+Theorem C04_source_low_coverage : forall c b,
+  low_b c b = fn_drop_idx (blog2 b) (has_sdepth c) (s_depth (fst b)) NULL_LOG2_COVERAGE MIN_REF_COVERAGE.
+Proof. exact fn_low_coverage_eq. Qed.
+
+(* The weight of one bin is apply_weights' arithmetic as translated from the source (Gen/FnFixWeights.v):
+   `1 - var / (bin_sz / bin_sz.mean())` (the same statement for on- and off-target bins; np.sqrt of the size and the
+   class mean are inputs), for a pooled reference the blend `x * (1 - spread ** 2) + (1 - x) * simple` with x as
+   written in the source, then `.clip(epsilon, 1.0)`; and "pooled" is `.any()` of the two translated row tests. *)
+Theorem C04_source_weights :
+  (forall pooled var sz mean_sz spread,
+      bin_weight pooled var sz mean_sz spread == fn_bin_weight pooled var sz mean_sz spread) /\
+  (forall var sz mean_sz, fn_anti_simple_wt var sz mean_sz = fn_tgt_simple_wt var sz mean_sz) /\
+  (forall l sw,
+      pooled_ref l =
+      existsb (fun b => fst (fn_pooled_tests (r_spread (snd b)) (frac1 (r_log2 (snd b))) sw weight_epsilon)) l
+      && existsb (fun b => snd (fn_pooled_tests (r_spread (snd b)) (frac1 (r_log2 (snd b))) sw weight_epsilon)) l).
+Proof. exact fn_weights_eq. Qed.
 
 (* ... and the autosome rule / the shuffle seed are the literals the model was written for *)
 Theorem C04_source_literals : autosome_pattern = "(chr)?\d+$"%string /\ shuffle_seed = 679661%Z.
